@@ -49,7 +49,7 @@ fn run_strategy(max_n: u32) -> impl Strategy<Value = Run> {
         .prop_map(|(shape, n, seed, exp10, shift)| Run { shape, n, seed, exp10, shift })
 }
 
-fn case_strategy(max_n: u32, max_parts: usize) -> impl Strategy<Value = Case> {
+pub fn case_strategy(max_n: u32, max_parts: usize) -> impl Strategy<Value = Case> {
     (
         k_strategy(),
         proptest::collection::vec(proptest::collection::vec(run_strategy(max_n), 1..3), 1..=max_parts),
@@ -158,7 +158,7 @@ fn is_wide(r: &Run) -> bool {
     matches!(r.shape, Shape::LogUniform(d) if d > WIDE_DECADES)
 }
 
-fn run_case(c: &Case, info: &mut CaseInfo) -> Result<(), Fail> {
+pub fn run_case(c: &Case, info: &mut CaseInfo) -> Result<(), Fail> {
     let wide = c.parts.iter().flatten().any(is_wide);
     let all_runs: Vec<&Run> = c.parts.iter().flatten().collect();
     let homog = all_runs.iter().all(|r| r.exp10 == all_runs[0].exp10 && r.shift == all_runs[0].shift)
